@@ -12,6 +12,20 @@ CHECKS = {
   text="Every add/remove/exists on the real PathManager is shadowed by a prefix-free-set model; return values, the stored set, the trie's own set and the trie's reachable terminal nodes are compared after every operation. The history space is explored exhaustively with state de-duplication up to the stated bounds (complete closure for the 2-site alphabet), then by seeded random 60-operation histories, then on the store of real pipeline runs. Assurance: held on every history explored; not a proof beyond the bounds.",
   note="Trusted: the 20-line model in lib/monitors/pathstore.py is the statement of the property; CallSite/CallPath are the repo's real classes. Bounds: alphabet of 2-3 call sites (+1 invalid), path length <= 3 (4 in thorough), BFS depth 4-6 quick / 5-16 thorough.",
   design="DESIGN.md §C19"),
+ "C17": dict(
+  engine="model-history",
+  technique="online trace monitor on register/notify of the real EventManager (shadow registration table + per-handler entry/exit log) plus an independent direct model, over exhaustively enumerated registration tables and inside real runs with the default table",
+  category="exploration",
+  text="All registration tables of <=3 handlers over {6 language-set forms} x {7 return values incl. None} x {replaces out_data or not}, and of 4 handlers (5 in thorough) over a reduced option set, are built on the real EventManager; the event is raised after every registration for the matching and a non-matching language, with a decoy handler on another event kind and an unknown event kind. Observed call sequence, in_data identity seen by each handler, stop point and returned flag word are compared with the rule. The same monitor judges every notify of real runs of seven frontends (default registration table). Exhaustive inside the bounds; held-on-observed beyond.",
+  note="Trusted: the rule as restated in lib/monitors/events.py and checks/c17.py (a non-zero return counts as processed and sets SUCCESS, as event_return.py defines; for a None return only order/stop/flags are asserted). Handlers raising exceptions are not exercised.",
+  design="DESIGN.md §C17"),
+ "C16": dict(
+  engine="model-history",
+  technique="post-condition monitor on every DataModel query (comparison with a naive scan of the live frame) over enumerated and random mutator/query interleavings, and on the real query methods inside real pipeline runs",
+  category="exploration",
+  text="Mutator sequences (element/row/column modification, append, row removal, rename, index reset, slice) are enumerated exhaustively to depth 2 over the full alphabet with every query subset in between (warm/cold/partly warm caches) and depth 3 over a reduced alphabet (3 and 4 in thorough), on three initial tables with duplicates, missing values and non-default labels, plus seeded random sequences; after each step up to ~150 query calls (all public query methods) are compared with a list-of-dicts scan of the current frame, including validity of returned positions. The same post-conditions are attached to the real methods during real runs of three frontends.",
+  note="Trusted: pandas itself and the scan in lib/monitors/datamodel.py. '' is 'missing' by the table's own convention. Aliased DataModel wrappers over one frame and Row.__setattr__ write-back are outside the property and not generated.",
+  design="DESIGN.md §C16"),
 }
 
 PENDING_REASON = "check not built yet in this round (planned in DESIGN.md §4); no claim is made for it"
